@@ -38,6 +38,7 @@ type c19Op struct {
 type c19Hist struct {
 	Hist []c19Op   `json:"hist"`
 	M    []c19Pair `json:"m"`
+	Old  []c19Pair `json:"old"`
 }
 
 // the documents of OrderedMapHistMC.tla (MCDocs), 1-based there
@@ -87,6 +88,8 @@ func c19Apply(m *verifapi.IntMap, op c19Op) (res *verifapi.IntMap, failure strin
 			m.Sort(func(i, j string) bool { return c19RankOf(i) > c19RankOf(j) })
 		case "cfirst":
 			m.Sort(func(i, j string) bool { return i == "c" && j != "c" })
+		case "coarse":
+			m.Sort(func(i, j string) bool { return (c19RankOf(i)-100)%3 < (c19RankOf(j)-100)%3 })
 		}
 	case "unmarshal":
 		pairs := op.Pairs
@@ -105,12 +108,8 @@ func c19Apply(m *verifapi.IntMap, op c19Op) (res *verifapi.IntMap, failure strin
 		if !c19PairsEqual(before, c19Observe(m)) {
 			return m, "filter/receiver-changed"
 		}
-		// a derived map must not alias the receiver: writing to it leaves the receiver alone
-		d.Set("zz-probe", 9)
-		d.Remove("zz-probe")
-		if !c19PairsEqual(before, c19Observe(m)) {
-			return m, "filter/aliases-receiver"
-		}
+		// (aliasing between the derived map and the receiver is judged by the operations that
+		// follow on either of them: see `old` in OrderedMapHist.tla; probing here would un-share storage)
 		return d, ""
 	case "map":
 		before := c19Observe(m)
@@ -125,11 +124,6 @@ func c19Apply(m *verifapi.IntMap, op c19Op) (res *verifapi.IntMap, failure strin
 		}
 		if !c19PairsEqual(before, c19Observe(m)) {
 			return m, "map/receiver-changed"
-		}
-		d.Set("zz-probe", 9)
-		d.Remove("zz-probe")
-		if !c19PairsEqual(before, c19Observe(m)) {
-			return m, "map/aliases-receiver"
 		}
 		return d, ""
 	default:
@@ -267,14 +261,34 @@ type c19Result struct {
 // step is compared with want (all prefixes are separate histories).
 func c19RunHistory(h c19Hist, alphabet []string) (int, string) {
 	m := verifapi.NewIntMap()
+	old := verifapi.NewIntMap() // the receiver a filter/map left behind (initially an unrelated empty map)
 	for i, op := range h.Hist {
 		var f string
-		m, f = c19Apply(m, op)
+		switch op.Op {
+		case "oldsort":
+			_, f = c19Apply(old, c19Op{Op: "sort", By: "desc"})
+		case "oldset":
+			_, f = c19Apply(old, c19Op{Op: "set", K: op.K, V: op.V})
+		case "filter", "map":
+			prev := m
+			m, f = c19Apply(m, op)
+			if f == "" {
+				old = prev
+			}
+		default:
+			m, f = c19Apply(m, op)
+		}
 		if f != "" {
 			return i, f
 		}
 	}
-	return len(h.Hist) - 1, c19Compare(m, h.M, alphabet)
+	if f := c19Compare(m, h.M, alphabet); f != "" {
+		return len(h.Hist) - 1, f
+	}
+	if f := c19Compare(old, h.Old, alphabet); f != "" {
+		return len(h.Hist) - 1, "derived-not-fresh/" + f
+	}
+	return len(h.Hist) - 1, ""
 }
 
 func c19Replay(args []string) int {
@@ -322,14 +336,19 @@ func c19Random(args []string) int {
 	out := bufio.NewWriter(os.Stdout)
 	defer out.Flush()
 	enc := json.NewEncoder(out)
-	keys := make([]string, 12)
+	keys := make([]string, 24)
 	for i := range keys {
 		keys[i] = fmt.Sprintf("k%02d", i)
 	}
 	for t := 0; t < *traces; t++ {
 		m := verifapi.NewIntMap()
+		var shadow *verifapi.IntMap // receiver left behind by the last filter/map
+		var shadowObs []c19Pair
 		_ = enc.Encode(map[string]any{"ev": "reset"})
 		nkeys := 2 + rng.Intn(len(keys)-1)
+		if t%3 == 0 {
+			nkeys = 14 + rng.Intn(len(keys)-13) // many keys: sort implementations switch algorithm with size
+		}
 		for i := 0; i < *length; i++ {
 			var op c19Op
 			switch r := rng.Intn(20); {
@@ -338,7 +357,7 @@ func c19Random(args []string) int {
 			case r < 13:
 				op = c19Op{Op: "remove", K: keys[rng.Intn(nkeys)]}
 			case r < 15:
-				op = c19Op{Op: "sort", By: []string{"asc", "desc"}[rng.Intn(2)]}
+				op = c19Op{Op: "sort", By: []string{"asc", "desc", "coarse"}[rng.Intn(3)]}
 			case r < 17:
 				op = c19Op{Op: "filter", Keep: 1 + rng.Intn(2)}
 			case r < 18:
@@ -363,7 +382,29 @@ func c19Random(args []string) int {
 				op.Op = "unmarshal"
 			}
 			var f string
+			prev := m
 			m, f = c19Apply(m, op)
+			if f == "" && (op.Op == "filter" || op.Op == "map") {
+				shadow, shadowObs = prev, c19Observe(prev)
+			}
+			if f == "" && shadow != nil {
+				// derived maps are fresh values: nothing done to the current map shows in the receiver left behind ...
+				if !c19PairsEqual(c19Observe(shadow), shadowObs) {
+					f = "derived-not-fresh/receiver changed by an operation on the derived map"
+				} else if rng.Intn(4) == 0 {
+					// ... and nothing done to that receiver shows in the current map
+					before := c19Observe(m)
+					if rng.Intn(2) == 0 {
+						shadow.Sort(func(i, j string) bool { return c19RankOf(i) > c19RankOf(j) })
+					} else {
+						shadow.Set(keys[rng.Intn(len(keys))], 7)
+					}
+					shadowObs = c19Observe(shadow)
+					if !c19PairsEqual(c19Observe(m), before) {
+						f = "derived-not-fresh/derived map changed by an operation on the receiver"
+					}
+				}
+			}
 			obs := []c19Pair{}
 			if f == "" {
 				obs = c19Observe(m)
